@@ -246,6 +246,8 @@ pub struct World {
     pub same_process_probes: u32,
     pub part_weight: u64,
     pub fault_weight: u64,
+    /// method of the last injected fault (outage runs: the same service stays down for a while)
+    pub last_fault_method: Option<String>,
     pub target: Option<String>,
     pub rng: crate::prng::Rng,
     pub rec_cache: Vec<Option<(u64, Rec)>>,
